@@ -58,6 +58,12 @@ def spec_of(scenario, nonce):
     return spec
 
 
+def _signal_of(scenario):
+    """the signal that ends a worker abruptly: what the OOM killer sends (KILL), what a supervisor,
+    `kill <pid>` or a closing terminal send (TERM, HUP), what a crash in native code raises (SEGV, ABRT)"""
+    return {"KILL": signal.SIGKILL, "TERM": signal.SIGTERM, "HUP": signal.SIGHUP, "SEGV": signal.SIGSEGV, "ABRT": signal.SIGABRT}[scenario.get("sig", "KILL")]
+
+
 def _pid_gone(pid):
     try:
         with open("/proc/%d/stat" % pid) as f:
@@ -81,10 +87,11 @@ class Monitor:
         self.faults = []  # (time, kind) of every fault that has FIRED
         self.killed = set()
         self.seen = set()  # play_many_games mode: workers that have been seen alive
+        self.sig = signal.SIGKILL  # what "abrupt death" is delivered as (scenario["sig"])
 
     def kill(self, j, pid):
         try:
-            os.kill(pid, signal.SIGKILL)
+            os.kill(pid, self.sig)
         except ProcessLookupError:
             pass
         t0 = time.time()
@@ -210,6 +217,7 @@ def run_play_many(scenario, d, factory, res):
         ebox["t_end"] = time.time()
 
     mon = Monitor(d, W, t_engine, None)
+    mon.sig = _signal_of(scenario)
     bth = threading.Thread(target=build, daemon=True)
     bth.start()
     blocked = mon.watch(bth, t_engine, T)
@@ -339,6 +347,7 @@ def run_play_many_games(scenario, d, factory, res):
 
     t_call = time.time()
     mon = Monitor(d, W, t_call, None)
+    mon.sig = _signal_of(scenario)
     th = threading.Thread(target=call, daemon=True)
     th.start()
     obs = {"N": n, "request": 1}
